@@ -49,7 +49,7 @@ import (
 
 const httpPart = "http"
 
-var httpSubs = []string{"http-requests", "sdpfrag"}
+var httpSubs = []string{"http-requests", "sdpfrag", "precondition-headers"}
 
 func runHTTP(res *core.Result) {
 	if isCoordinator() {
@@ -693,6 +693,9 @@ func runHTTPShard(res *core.Result) {
 		runSDPFrag(c, o)
 	}
 	c.flush()
+	if core.Want("precondition-headers") && o.Shard == 0 {
+		runPrecondHeaders(res)
+	}
 }
 
 func runHTTPRequests(c *pctx, o *core.Options) {
